@@ -135,9 +135,8 @@ class CylindricalSymGrid(GridBase):
     @property
     def state(self) -> dict[str, Any]:
         """dict: all information required for reconstructing the grid"""
-        radius = self.axes_bounds[0][1]
         return {
-            "radius": radius,
+            "radius": self.radius,
             "bounds_z": self.axes_bounds[1],
             "shape": self.shape,
             "periodic_z": self._periodic_z,
